@@ -309,6 +309,28 @@ func g4Rewrite(r *Repo, rep *Report) {
 	info := fi.Pkg.TypesInfo
 	_ = parents
 	g := newGraph(fi.Decl.Body, mayReturnFn(info))
+	{
+		count := map[types.Object]int{}
+		def := map[types.Object]ast.Expr{}
+		ast.Inspect(fi.Decl.Body, func(n ast.Node) bool {
+			if as, ok := n.(*ast.AssignStmt); ok && len(as.Lhs) == len(as.Rhs) {
+				for k, l := range as.Lhs {
+					if id, ok := l.(*ast.Ident); ok {
+						if o := objOf(info, id); o != nil && types.Identical(o.Type(), types.Typ[types.Bool]) {
+							count[o]++
+							def[o] = as.Rhs[k]
+						}
+					}
+				}
+			}
+			return true
+		})
+		for o, n := range count {
+			if n == 1 {
+				g4SingleDef[o] = def[o]
+			}
+		}
+	}
 	// find the OpenFile call and the bool variable guarding it
 	var open *ast.CallExpr
 	ast.Inspect(fi.Decl, func(x ast.Node) bool {
@@ -421,16 +443,16 @@ func g4Rewrite(r *Repo, rep *Report) {
 				if !ok {
 					continue
 				}
-				be, ok := ast.Unparen(cond).(*ast.BinaryExpr)
-				if !ok || (be.Op != token.NEQ && be.Op != token.EQL) || !types.Identical(info.TypeOf(be.X), types.Typ[types.String]) {
-					continue
-				}
-				eqSucc := b.Succs[0]
-				if be.Op == token.NEQ {
-					eqSucc = b.Succs[1]
-				}
-				if g.dominates(b, sbA) && eqSucc != sbA && !g.reachable([]*cfg.Block{eqSucc}, loopHead)[sbA] {
-					okA = true
+				// the edge on which two strings were found to differ: x != y taken, x == y not taken, also as a disjunct of a
+				// condition that is not taken (if name == "" || name == call.Name { continue })
+				for edge, truth := range []bool{true, false} {
+					if !impliesStringsDiffer(info, cond, truth) {
+						continue
+					}
+					other := b.Succs[1-edge]
+					if g.dominates(b, sbA) && other != sbA && !g.reachable([]*cfg.Block{other}, loopHead)[sbA] {
+						okA = true
+					}
 				}
 			}
 			// (b) a block that tests !autoname && !dedup (or equivalent) whose true branch cannot reach the store
@@ -467,10 +489,54 @@ func g4Rewrite(r *Repo, rep *Report) {
 	}
 }
 
+// g4SingleDef: boolean locals of newPackage that are defined exactly once (filled by g4Rewrite).
+var g4SingleDef = map[types.Object]ast.Expr{}
+
+// impliesStringsDiffer: the condition having this truth value implies that two non-constant strings differ.
+func impliesStringsDiffer(info *types.Info, e ast.Expr, truth bool) bool {
+	switch x := ast.Unparen(e).(type) {
+	case *ast.UnaryExpr:
+		if x.Op == token.NOT {
+			return impliesStringsDiffer(info, x.X, !truth)
+		}
+	case *ast.BinaryExpr:
+		switch x.Op {
+		case token.LOR:
+			if !truth {
+				return impliesStringsDiffer(info, x.X, false) || impliesStringsDiffer(info, x.Y, false)
+			}
+		case token.LAND:
+			if truth {
+				return impliesStringsDiffer(info, x.X, true) || impliesStringsDiffer(info, x.Y, true)
+			}
+		case token.EQL, token.NEQ:
+			if !types.Identical(info.TypeOf(x.X), types.Typ[types.String]) {
+				return false
+			}
+			if tv, ok := info.Types[x.X]; ok && tv.Value != nil {
+				return false
+			}
+			if tv, ok := info.Types[x.Y]; ok && tv.Value != nil {
+				return false // a comparison with a constant ("" …) is not the comparison of the two names
+			}
+			return (x.Op == token.NEQ) == truth
+		}
+	}
+	return false
+}
+
 // isNeitherFlag recognises `!a && !d`, `!d && !a`, `!(a || d)`.
 func isNeitherFlag(info *types.Info, e ast.Expr, a, d types.Object) bool {
 	if a == nil || d == nil {
 		return false
+	}
+	// !allowed  with  allowed := a || d  defined once
+	if u, ok := ast.Unparen(e).(*ast.UnaryExpr); ok && u.Op == token.NOT {
+		if id, ok := ast.Unparen(u.X).(*ast.Ident); ok {
+			if def := g4SingleDef[info.Uses[id]]; def != nil {
+				return isNeitherFlag(info, &ast.UnaryExpr{Op: token.NOT, X: &ast.ParenExpr{X: def}}, a, d)
+			}
+		}
 	}
 	// a flag is a parameter, or a field read through a selector (pg.autoname)
 	isVar := func(x ast.Expr, v types.Object) bool {
